@@ -81,6 +81,7 @@ def BOUNDS(tier):
 
 def cases(tier):
     yield Case("storage", {"kind": "storage"})
+    yield Case("large", {"kind": "large"})
     ab, ns = _bin_range(tier)
     for a in ab:
         for b in ab:
@@ -113,6 +114,8 @@ def cases(tier):
 def evaluate(p):
     if p["kind"] == "storage":
         return _storage(p)
+    if p["kind"] == "large":
+        return _large(p)
     with warnings.catch_warnings():
         warnings.simplefilter("ignore")
         k = p["kind"]
@@ -571,4 +574,44 @@ def _storage(p):
         if name in fns:
             n = variants.check_storage(o, "result_independent_of_storage", fns[name], cimg, 1e-10, sub=name + ":complex")
             o.stat("lib_calls", n)
+    return o
+
+
+def _large(p):
+    """sizes beyond the exhaustive alphabets (block-wise implementations change behaviour above 64/128/256):
+    binning of 260 x 140 images and of stacks of 130 frames, azimuthal average and encircled energy of 130- and
+    258-pixel images, zoom of a 70 x 70 array"""
+    from aotools import interpolation
+    from aotools.image_processing import psf
+    o = Out()
+    img = numpy.fromfunction(lambda a, b: (a * 7 + b * 3) % 11 + 1.0 + 0.125 * ((a * b) % 8), (260, 140))  # dyadic: sums are exact in any order
+    for n in (2, 4, 10):
+        got = numpy.asarray(interpolation.binImgs(img.copy(), n))
+        o.check("block_sums_exact_large", got.shape == (260 // n, 140 // n) and numpy.array_equal(got, imgops.block_sum(img, n)),
+                sub="2d:n=%d" % n)
+    st = numpy.array([numpy.roll(img[:20, :12], k, 0) + k for k in range(130)])
+    got = numpy.asarray(interpolation.binImgs(st.copy(), 2))
+    o.check("block_sums_exact_large", got.shape == (130, 10, 6) and numpy.array_equal(got, imgops.block_sum(st, 2)), sub="stack130")
+    o.stat("lib_calls", 4)
+    for n in (130, 258):
+        c = numpy.full((n, n), 3.25)
+        a = numpy.asarray(psf.azimuthal_average(c.copy()), dtype=float)
+        o.close("constant_gives_constant_large", _maxabs(a - 3.25), 1e-12, sub="n=%d" % n)
+        d = numpy.fromfunction(lambda y, x: numpy.exp(-((y - n / 2) ** 2 + (x - n / 2) ** 2) / (2.0 * (n / 9.0) ** 2)) + 0.01 * ((y + x) % 5), (n, n))
+        a = numpy.asarray(psf.azimuthal_average(d.copy()), dtype=float)
+        o.check("between_min_and_max_large", bool(numpy.all(a >= d.min() - 1e-12) and numpy.all(a <= d.max() + 1e-12)), sub="n=%d" % n)
+        xi, yi = psf.encircled_energy(d.copy(), eeDiameter=False)
+        _curve_clauses(o, numpy.asarray(xi), numpy.asarray(yi), "large:n=%d" % n)
+        o.stat("lib_calls", 3)
+    z = numpy.fromfunction(lambda y, x: 0.5 * y - 0.25 * x + 0.01 * y * x, (70, 70))
+    for fn_name in ("zoom_rbs", "zoom"):
+        try:
+            out = numpy.asarray(getattr(interpolation, fn_name)(z.copy(), (139, 139), order=3))
+        except NotImplementedError:
+            continue
+        xs = numpy.linspace(0, 69, 139)
+        want = 0.5 * xs[:, None] - 0.25 * xs[None, :] + 0.01 * xs[:, None] * xs[None, :]
+        ok = out.shape == (139, 139)
+        o.close("polynomial_exact_large", _maxabs(out - want) / _maxabs(want) if ok else float("inf"), 1e-10, sub=fn_name)
+        o.stat("lib_calls", 1)
     return o
